@@ -19,53 +19,56 @@ type layoutRun struct {
 	decErr error
 }
 
-var (
-	layoutOnce sync.Once
-	layoutRuns map[string]*layoutRun
-)
-
-// runLayouts evaluates every unit's encoder and decoder with the bit-provenance engine (once per process).
-func runLayouts(c *Ctx) map[string]*layoutRun {
-	layoutOnce.Do(func() {
-		layoutRuns = map[string]*layoutRun{}
-		var mu sync.Mutex
-		parallelFor(len(layoutUnits), func(i int) {
-			u := layoutUnits[i]
-			r := &layoutRun{u: u}
-			func() {
-				defer func() {
-					if x := recover(); x != nil {
-						r.encErr = fmt.Errorf("analysis panic: %v", x)
-					}
-				}()
-				if u.enc != "" {
-					fn := c.Prog.Func(u.enc)
-					if fn == nil {
-						r.encErr = fmt.Errorf("unresolved anchor %s", u.enc)
-					} else {
-						r.enc, r.encErr = bits.New(c.Prog.SPkg).AnalyzeEncoder(fn)
-					}
+// runLayouts evaluates the named units' encoders and decoders with the bit-provenance engine.
+func runLayouts(c *Ctx, names ...string) map[string]*layoutRun {
+	want := map[string]bool{}
+	for _, n := range names {
+		want[n] = true
+	}
+	var units []*unitSpec
+	for _, u := range layoutUnits {
+		if len(names) == 0 || want[u.name] {
+			units = append(units, u)
+		}
+	}
+	layoutRuns := map[string]*layoutRun{}
+	var mu sync.Mutex
+	parallelFor(len(units), func(i int) {
+		u := units[i]
+		r := &layoutRun{u: u}
+		func() {
+			defer func() {
+				if x := recover(); x != nil {
+					r.encErr = fmt.Errorf("analysis panic: %v", x)
 				}
 			}()
-			func() {
-				defer func() {
-					if x := recover(); x != nil {
-						r.decErr = fmt.Errorf("analysis panic: %v", x)
-					}
-				}()
-				if u.dec != "" {
-					fn := c.Prog.Func(u.dec)
-					if fn == nil {
-						r.decErr = fmt.Errorf("unresolved anchor %s", u.dec)
-					} else {
-						r.dec, r.decErr = bits.New(c.Prog.SPkg).AnalyzeDecoder(fn)
-					}
+			if u.enc != "" {
+				fn := c.Prog.Func(u.enc)
+				if fn == nil {
+					r.encErr = fmt.Errorf("unresolved anchor %s", u.enc)
+				} else {
+					r.enc, r.encErr = bits.New(c.Prog.SPkg).AnalyzeEncoder(fn)
+				}
+			}
+		}()
+		func() {
+			defer func() {
+				if x := recover(); x != nil {
+					r.decErr = fmt.Errorf("analysis panic: %v", x)
 				}
 			}()
-			mu.Lock()
-			layoutRuns[u.name] = r
-			mu.Unlock()
-		})
+			if u.dec != "" {
+				fn := c.Prog.Func(u.dec)
+				if fn == nil {
+					r.decErr = fmt.Errorf("unresolved anchor %s", u.dec)
+				} else {
+					r.dec, r.decErr = bits.New(c.Prog.SPkg).AnalyzeDecoder(fn)
+				}
+			}
+		}()
+		mu.Lock()
+		layoutRuns[u.name] = r
+		mu.Unlock()
 	})
 	return layoutRuns
 }
@@ -100,7 +103,7 @@ func checkC16(c *Ctx) {
 	r.Assume = []string{"values wider than their wire field are outside the identity claim (C08 decides whether they are rejected)"}
 	r.NotCov("StatusVectorChunk (symbol positions computed in a data-dependent loop through a map lookup), RecvDelta (scaled arithmetic: C13-SCALE/WIDTH); for the XR RLE chunk accessors only the bit selections of each return are decided, not which return is taken for which chunk type")
 
-	runs := runLayouts(c)
+	runs := runLayouts(c, c16Units...)
 	for _, name := range c16Units {
 		lr := runs[name]
 		if lr == nil {
